@@ -3,6 +3,7 @@ import PybropsModel.Drv.C02
 import PybropsModel.Drv.C03
 import PybropsModel.Drv.C04
 import PybropsModel.Drv.C05
+import PybropsModel.Drv.C06
 import PybropsModel.Drv.C07
 import PybropsModel.Drv.C08
 import PybropsModel.Drv.C09
@@ -25,6 +26,7 @@ def allOps : List (String × J.Op) := List.flatten [
   Drv.C03.ops,
   Drv.C04.ops,
   Drv.C05.ops,
+  Drv.C06.ops,
   Drv.C07.ops,
   Drv.C08.ops,
   Drv.C09.ops,
